@@ -9,6 +9,7 @@ Decided:
   R20.2  siblings: the two retrieve_flow implementations (Bisection1D, RowWise) agree path by path; every
          FlowConfigType member is handled, anything else raises
   R20.5  routing: every constructor link from the design to retrieve_flow binds flow_type to the caller's own flow type
+  R20.6  the summaries report (and compute Reynolds from) the live exchanger's m_flow_borehole
   R20.3  one field: in Bisection1D.__init__ and both initialize_ghe the same coordinates go to
          retrieve_flow, to the g-function calculation and (through it, as bore_locations) to the GHE; the
          mass flow given to the g-function is retrieve_flow's, the system flow given to the GHE is
@@ -151,6 +152,7 @@ def check(prog: Program, tier: str) -> Result:
 
     _one_field(prog, res)
     _check_routing(prog, res)
+    _check_reported_flow(prog, res)
     return res
 
 
@@ -269,6 +271,51 @@ def _one_field(prog: Program, res: Result):
         res.violation("R20.3", "network-flow", prog.loc(fi, fi.node), q, "the network mass flow handed to pygfunction is not (number of boreholes of the network, one per coordinate) * m_flow_borehole")
 
 
+def _check_reported_flow(prog: Program, res: Result):
+    """R20.6: the per-borehole mass flow the summaries report (and feed to the reported Reynolds number) is the live
+    exchanger's own m_flow_borehole - the quantity the two flow specifications are equal in - not a re-derivation from the
+    number the user typed (which is a system total for flow_type = system)."""
+    OUTQ = "ghedesigner.output.OutputManager"
+    want = "design.ghe.bhe.m_flow_borehole"
+
+    def resolve(fi_, e_):
+        # through one helper method of the output manager: self.h(design) -> its return expression
+        if isinstance(e_, ast.Call) and (attr_chain(e_.func) or "").startswith("self."):
+            h = prog.method(OUTQ, attr_chain(e_.func).split(".")[-1])
+            if h is not None:
+                rets = [r for r in ast.walk(h.node) if isinstance(r, ast.Return) and r.value is not None]
+                if len(rets) == 1:
+                    return rets[0].value
+        return e_
+
+    n_sites = 0
+    for mname in ("get_summary_object", "get_summary_text"):
+        fi = prog.method(OUTQ, mname)
+        if fi is None:
+            raise AnalysisError(f"{OUTQ}.{mname} not found")
+        sites = []
+        for n in ast.walk(fi.node):
+            if isinstance(n, ast.Dict):
+                for k, v in zip(n.keys, n.values):
+                    if isinstance(k, ast.Constant) and k.value == "fluid_mass_flow_rate_per_borehole":
+                        x = v.args[0] if isinstance(v, ast.Call) and attr_chain(v.func) == "add_with_units" and v.args else v
+                        sites.append(("summary key fluid_mass_flow_rate_per_borehole", x, v))
+            if isinstance(n, ast.Call) and attr_chain(n.func) == "self.d_row" and len(n.args) >= 3 and isinstance(n.args[1], ast.Constant) and "Mass Flow Rate Per Borehole" in str(n.args[1].value):
+                sites.append(("text row 'Mass Flow Rate Per Borehole'", n.args[2], n))
+            if isinstance(n, ast.Call) and (attr_chain(n.func) or "").split(".")[-1] in ("compute_reynolds", "compute_reynolds_concentric") and n.args:
+                sites.append((f"Reynolds number ({(attr_chain(n.func) or '').split('.')[-1]})", n.args[0], n))
+        for label, x, node in sites:
+            n_sites += 1
+            got = ast.unparse(resolve(fi, x))
+            ok = got == want
+            res.ob("R20.6", f"{mname}: {label} is the live exchanger's m_flow_borehole", ok, prog.loc(fi, node))
+            if not ok:
+                res.violation("R20.6", f"{mname}|{label}|{got[:50]}", prog.loc(fi, node), fi.qualname,
+                              f"{label} is reported from {got[:80]} instead of {want}: with a system flow specification the summary shows N times the per-borehole flow")
+    res.count("reported_flow_sites", n_sites)
+    res.floor("reported_flow_sites", 4)
+
+
 def _check_routing(prog: Program, res: Result):
     """R20.5: the user's flow type reaches retrieve_flow.  Chain: GHEManager.set_design -> Design*(flow_type=..) ->
     DesignBase.flow_type -> <search class>(flow_type=self.flow_type) -> [super().__init__(flow_type=flow_type)] ->
@@ -357,6 +404,8 @@ def _check_routing(prog: Program, res: Result):
 
 
 VARIANTS = [
+    Variant("summary mass flow re-derived from the user's flow number (seeded C20_d)", "break",
+            [("ghedesigner.output", "                'fluid_mass_flow_rate_per_borehole': add_with_units(design.ghe.bhe.m_flow_borehole, 'kg/s'),", "                'fluid_mass_flow_rate_per_borehole': add_with_units(design.V_flow / 1000.0 * design.ghe.bhe.fluid.rho, 'kg/s'),")], "R20.6"),
     Variant("BisectionZD no longer forwards flow_type, the base default hides it (seeded C20)", "break",
             [(SR, "        flow_type: FlowConfigType.BOREHOLE,\n        max_iter=15,\n        disp=False,\n        search=True,", "        flow_type: FlowConfigType = FlowConfigType.BOREHOLE,\n        max_iter=15,\n        disp=False,\n        search=True,"),
              (SR, "            method=method,\n            flow_type=flow_type,\n            max_iter=max_iter,\n            disp=disp,\n            search=False,\n            field_type=field_type,\n            load_years=load_years,\n        )\n\n        self.coordinates_domain_nested = coordinates_domain_nested",
